@@ -16,6 +16,28 @@ class Ptr:
     def __repr__(s): return 'Ptr(%s,%s)'%(s.obj,s.off)
 
 def is_c(v): return isinstance(v,int)
+_B64=None
+def _fpuf(name,nargs):
+    import z3 as _z
+    return _z.Function(name,_z.BitVecSort(2),*([_z.BitVecSort(64)]*(nargs+1)))
+FPUF={}
+def fpop(name,rm,*args):
+    """IEEE double operation as an uninterpreted function of (rounding mode, operand bit patterns)"""
+    f=FPUF.get(name)
+    if f is None: f=FPUF[name]=_fpuf(name,len(args))
+    args=[bv(a,64) for a in args]
+    if name in ('fadd','fmul') and not args[0].eq(args[1]):   # IEEE add/mul commute (NaN payloads aside; compilers rely on it): f(a,b)=g(min,max)
+        c=z3.ULE(args[0],args[1]); args=[z3.If(c,args[0],args[1]),z3.If(c,args[1],args[0])]
+    return f(bv(rm,2),*args)
+I2D=None
+def i2d(x):
+    global I2D
+    if I2D is None: I2D=z3.Function('i2d',z3.BitVecSort(32),z3.BitVecSort(64))
+    if is_c(x):
+        import struct
+        sx=x-(1<<32) if x>>31 else x
+        return struct.unpack('<Q',struct.pack('<d',float(sx)))[0]
+    return I2D(x)
 def bv(v,w): return z3.BitVecVal(v,w) if is_c(v) else v
 def mask(w): return (1<<w)-1
 
@@ -181,7 +203,7 @@ def split_top(sx):
 
 # ---------------- memory: objects with byte dict (concrete offsets only in prototype)
 class Mem:
-    def __init__(s): s.objs={}; s.n=0; s.checks=[]; s.symload={}
+    def __init__(s): s.objs={}; s.n=0; s.checks=[]; s.symload={}; s.cand_checks=[]
     def alloc(s,size,name=None,init=None):
         s.n+=1; k=name or 'o%d'%s.n; s.objs[k]={'size':size,'bytes':{} if init is None else init,'ch':{}}; return Ptr(k,0)
     def _explode(s,o,off):
@@ -203,7 +225,9 @@ class Mem:
             return
         if not is_c(p.off):
             s.checks.append((p.obj,p.off,nbytes,o['size'],'store'))
-            for k in sorted(k for k in o['ch'] if o['ch'][k][1]==nbytes and not isinstance(o['ch'][k][0],Ptr)):
+            cands=sorted(k for k in o['ch'] if o['ch'][k][1]==nbytes and not isinstance(o['ch'][k][0],Ptr))
+            s.cand_checks.append((p.obj,p.off,tuple(cands),'store'))
+            for k in cands:
                 old=o['ch'][k][0]; o['ch'][k]=(z3.If(p.off==k,bv(val,8*nbytes),bv(old,8*nbytes)),nbytes)
             return
         o=s.objs[p.obj]
@@ -222,11 +246,12 @@ class Mem:
         if not is_c(p.off):
             # small concrete object, symbolic offset: ite-chain over the written, aligned offsets; extent recorded as a check
             s.checks.append((p.obj,p.off,nbytes,o['size'],'load'))
-            cands=sorted(k for k in o['ch'] if o['ch'][k][1]==nbytes)
+            cands=sorted(k for k in o['ch'] if o['ch'][k][1]==nbytes and not isinstance(o['ch'][k][0],Ptr))
+            s.cand_checks.append((p.obj,p.off,tuple(cands),'load'))
+            if not cands: raise OOB('load at symbolic offset: no candidate cell',p.obj,str(p.off)[:80],nbytes,o['size'])
             v=None
             for k in reversed(cands):
                 x=bv(o['ch'][k][0],8*nbytes); v=x if v is None else z3.If(p.off==k,x,v)
-            s.symload=getattr(s,'symload',[])+[(p.obj,p.off,cands)]
             return v
         o=s.objs[p.obj]
         if not (0<=p.off and p.off+nbytes<=o['size']): raise OOB('load',p.obj,p.off,nbytes,o['size'])
@@ -244,7 +269,7 @@ class Mem:
 
 # ---------------- interpreter
 class Interp:
-    def __init__(s,mod,mem=None): s.mod=mod; s.mem=mem or Mem(); s.tp=mod.tp; s.gl={}; s.steps=0; s.hooks={}; s.trace=[]; s.cut=None; s.intr_hooks={}; s.pending_exc=None; s.fork={'prefix':[],'taken':[],'pc':[],'pending':[],'queries':0}
+    def __init__(s,mod,mem=None): s.mod=mod; s.mem=mem or Mem(); s.tp=mod.tp; s.gl={}; s.steps=0; s.hooks={}; s.trace=[]; s.cut=None; s.intr_hooks={}; s.mxcsr=z3.BitVec('mxcsr_entry',32); s.pending_exc=None; s.fork={'prefix':[],'taken':[],'pc':[],'pending':[],'queries':0}
     # ---- forking by re-execution: decisions are replayed from a prefix, new ones are explored DFS
     def decide(s,c):
         cs=z3.simplify(c)
@@ -261,6 +286,9 @@ class Interp:
             ch=feas[0]
             if len(feas)==2: fk['pending'].append(fk['prefix'][:i]+fk['taken'][len(fk['prefix']):]+[feas[1]]) if False else fk['pending'].append(fk['taken']+[feas[1]])
         fk['taken'].append(ch); fk['pc'].append(c==ch); return ch
+    def rm(s):
+        m=s.mxcsr
+        return (m>>13)&3 if is_c(m) else z3.Extract(14,13,m)
     def glob(s,name):
         if name in s.gl: return s.gl[name]
         if name not in s.mod.globals or ' external ' in (' '+s.mod.globals[name]+' ') and 'constant' in s.mod.globals[name] and name.startswith('_ZTI'):
@@ -313,6 +341,10 @@ class Interp:
         if txt=='true': return 1
         if txt=='false': return 0
         if isinstance(t,IntT): return int(txt)&mask(t.w)
+        if isinstance(t,FpT):
+            import struct
+            if txt.startswith('0x'): return int(txt,16)
+            return struct.unpack('<Q' if t.w==64 else '<I',struct.pack('<d' if t.w==64 else '<f',float(txt)))[0]
         if isinstance(t,VecT) and txt.startswith('<'):
             return [s.typed(env,e)[1] for e in split_top(txt[1:-1])]
         if txt.startswith('getelementptr'):
@@ -384,20 +416,30 @@ class Interp:
             if isinstance(a,Ptr) and isinstance(b,Ptr) and op=='sub':
                 assert a.obj==b.obj,(a,b); env[res]=binop('sub',a.off,b.off,64); return
             env[res]=vecmap(lambda x,y:binop(op,x,y,resolve(t).el.w if isinstance(resolve(t),VecT) else resolve(t).w),a,b); return
+        if op in ('fadd','fsub','fmul','fdiv'):
+            rest=re.sub(r'^((fast|nnan|ninf|nsz|arcp|contract|afn|reassoc)\s+)+','',rest); t,i=s.tp.parse(rest); a,b=[s.operand(env,t,x) for x in split_top(rest[i:])]
+            rm=s.rm(); env[res]=vecmap(lambda x,y:fpop(op,rm,x,y),a,b); return
+        if op=='fneg':
+            t,v=s.typed(env,rest); env[res]=vecmap(lambda x,y:binop('xor',x,1<<63,64),v,v); return
         if op=='icmp':
             pred,rest=rest.split(' ',1); t,i=s.tp.parse(rest); a,b=[s.operand(env,t,x) for x in split_top(rest[i:])]
             env[res]=icmp(pred,a,b,resolve(t)); return
         if op=='select':
             parts=split_top(rest); c=s.typed(env,parts[0])[1]; ta,a=s.typed(env,parts[1]); b=s.typed(env,parts[2])[1]
             if is_c(c): env[res]=a if c else b
+            elif isinstance(c,list):
+                env[res]=[ (x if ci else y) if is_c(ci) else z3.If(ci==1,bv(x,64),bv(y,64)) for ci,x,y in zip(c,a,b)]
+            elif isinstance(a,Ptr) or isinstance(b,Ptr) or isinstance(a,list):
+                env[res]=a if s.decide(c) else b
             else:
                 w=resolve(ta).size()*8 if not isinstance(resolve(ta),IntT) else resolve(ta).w
                 env[res]=z3.If(c==1,bv(a,w),bv(b,w))
             return
         if op=='sitofp':
             m=re.match(r'(.*) to (.*)$',rest); t1,v=s.typed(env,m.group(1)); t1=resolve(t1)
-            I2D=z3.Function('i2d',z3.BitVecSort(32),z3.BitVecSort(64))
-            env[res]=[I2D(bv(x,32)) for x in v] if isinstance(v,list) else I2D(bv(v,32)); return
+            ew=resolve(t1.el).w if isinstance(t1,VecT) else t1.w
+            assert ew==32,'sitofp from i%d'%ew
+            env[res]=[i2d(x) for x in v] if isinstance(v,list) else i2d(v); return
         if op in ('zext','sext','trunc','bitcast','ptrtoint','inttoptr'):
             m=re.match(r'(.*) to (.*)$',rest); t1,v=s.typed(env,m.group(1)); t2,_=s.tp.parse(m.group(2)); t1=resolve(t1); t2=resolve(t2)
             env[res]=cast(op,v,t1,t2); return
@@ -505,6 +547,19 @@ class Interp:
                 if c==0: return a
                 return binop('or',binop('shl',a,c,w),binop('lshr',b,w-c,w),w)
             return vecmap3(f,a,b,c)
+        if fn.startswith('llvm.sqrt'):
+            rm=s.rm(); a=args[0]
+            return [fpop('fsqrt',rm,x) for x in a] if isinstance(a,list) else fpop('fsqrt',rm,a)
+        if fn.startswith('llvm.x86.sse.ldmxcsr'):
+            s.mxcsr=s.mem.load(args[0],4); s.trace.append(('ldmxcsr',s.mxcsr)); return None
+        if fn.startswith('llvm.x86.sse.stmxcsr'):
+            s.mem.store(args[0],s.mxcsr,4); return None
+        if fn.startswith('llvm.ctlz'):
+            a=args[0]; w=resolve(rt).w
+            if is_c(a): return w-a.bit_length()
+            r=z3.BitVecVal(w,w)
+            for i in range(w): r=z3.If(z3.Extract(i,i,a)==1,z3.BitVecVal(w-1-i,w),r)
+            return r
         if fn.startswith('llvm.ctpop'):
             a=args[0]; w=resolve(rt).w
             if is_c(a): return bin(a).count('1')
